@@ -25,7 +25,7 @@ import rpharness as H
 from vloop import Livelock
 
 PROP = 'C19'
-SCRATCH = '/dev/shm/asyncssh-verif-c19'
+SCRATCH = '/dev/shm/asyncssh-verif-c19-%d' % os.getpid()       # unique per check run (workers are forked later)
 
 
 # ------------------------------------------------------------------ splitter model
